@@ -17,6 +17,7 @@ import FwdVerif.Lemmas.ReqSeq
 import FwdVerif.Lemmas.C01Conn
 import FwdVerif.Lemmas.C01Peer
 import FwdVerif.Lemmas.C01Scheme
+import FwdVerif.Model.C01Gen
 
 namespace FwdVerif
 namespace C01
@@ -1451,6 +1452,16 @@ example : reqTarget exCtx exReqFrontEnd = some (bs "http", bs "origin.test") ∧
     shows a request Go accepts (`WFReq`) has no values under such a name, the matching statement
     for `outValues` is not proved.
 -/
+
+/-! ### Tie to the source: the hop-by-hop field table
+
+`Model/C01Gen.lean` is regenerated on every run from `hopByHopHeaders` of
+`internal/martian/header/hopbyhop_modifier.go`.  The table `removeHopByHop` folds over in the model
+(requests and responses share it) is that list, in that order. -/
+
+theorem c01_generated_hop_table_is_model :
+    C01Gen.hopByHopHeaders.map Req.bs = Req.hopByHopNames := by
+  with_unfolding_all decide
 
 end C01
 end FwdVerif
